@@ -207,6 +207,7 @@ func runCRDTSection(c *core.Ctx) {
 	{
 		g, info := e.Graph(bc), bc.Pkg.Info
 		budgetSpent := func(ex ast.Expr, val bool) bool {
+			ex = an.Unparen(resolveThroughLiteral(info, bc.Body(), ex))
 			be, ok := ex.(*ast.BinaryExpr)
 			if !ok || an.SelectedField(info, an.ResolveLocal(info, bc.Body(), be.X)) != a.count {
 				return false
@@ -431,4 +432,81 @@ func runCRDTSection(c *core.Ctx) {
 		}
 		c.Check(n2 > 0 && ok2, "CRDTRPCReceiver.ReceiveValue:enqueues-non-nil", recv.Pos(), "a non-nil peer state is always handed to prepMerge", "ReceiveValue hands the peer's state to prepMerge only on the branch where it is nil: every received state is dropped")
 	}
+}
+
+// resolveThroughLiteral reads a local that receives a named result of an immediately invoked function literal
+// (`a, b := func() (x T, y U) { ...; x = E; ...; return }()`, what a helper with a deferred unlock looks like once it is
+// read in place) as the expression the literal assigns to that result, when the result is assigned exactly once. Other
+// expressions (and single-definition locals, via an.ResolveLocal) are returned as they are.
+func resolveThroughLiteral(info *types.Info, body ast.Node, e ast.Expr) ast.Expr {
+	for depth := 0; depth < 4; depth++ {
+		e = an.ResolveLocal(info, body, e)
+		id, ok := an.Unparen(e).(*ast.Ident)
+		if !ok {
+			return e
+		}
+		o := info.ObjectOf(id)
+		if o == nil {
+			return e
+		}
+		var next ast.Expr
+		n := 0
+		ast.Inspect(body, func(m ast.Node) bool {
+			as, ok := m.(*ast.AssignStmt)
+			if !ok {
+				return true
+			}
+			for i, l := range as.Lhs {
+				if an.ObjOf(info, l) != o {
+					continue
+				}
+				n++
+				if len(as.Rhs) == 1 && len(as.Lhs) > 1 {
+					if call, isCall := an.Unparen(as.Rhs[0]).(*ast.CallExpr); isCall {
+						if lit, isLit := an.Unparen(call.Fun).(*ast.FuncLit); isLit && lit.Type.Results != nil {
+							k := 0
+							for _, fld := range lit.Type.Results.List {
+								for _, nm := range fld.Names {
+									if k == i {
+										next = nm
+									}
+									k++
+								}
+							}
+						}
+					}
+				} else if len(as.Rhs) == len(as.Lhs) {
+					next = as.Rhs[i]
+				}
+			}
+			return true
+		})
+		if n != 1 || next == nil {
+			return e
+		}
+		if nid, isID := next.(*ast.Ident); isID && info.Defs[nid] != nil {
+			// a named result: the single assignment inside the literal
+			ro := info.Defs[nid]
+			var rhs ast.Expr
+			k := 0
+			ast.Inspect(body, func(m ast.Node) bool {
+				if as, ok := m.(*ast.AssignStmt); ok && len(as.Lhs) == len(as.Rhs) {
+					for i, l := range as.Lhs {
+						if an.ObjOf(info, l) == ro {
+							k++
+							rhs = as.Rhs[i]
+						}
+					}
+				}
+				return true
+			})
+			if k != 1 {
+				return e
+			}
+			e = rhs
+			continue
+		}
+		e = next
+	}
+	return e
 }
